@@ -6,6 +6,7 @@ package c32
 import (
 	"fmt"
 	"os"
+	"path/filepath"
 	"testing"
 
 	"pgregory.net/rapid"
@@ -154,6 +155,12 @@ func fuzzOne(t *testing.T, role string, data []byte) {
 	stream := data[2:]
 	if len(stream) > 1<<16 {
 		return
+	}
+	// debugging aid: with C32_FUZZ_JOURNAL=<dir> every worker process records the input it is
+	// about to run, so that an input on which a worker gets stuck (and which the fuzzing engine
+	// therefore never saves) can be recovered from <dir>/<pid>
+	if dir := os.Getenv("C32_FUZZ_JOURNAL"); dir != "" {
+		os.WriteFile(filepath.Join(dir, fmt.Sprintf("%s-%d", role, os.Getpid())), data, 0o644)
 	}
 	var e *endpoint
 	var fail string
